@@ -310,7 +310,7 @@ def _krome_regex_extractor(ctx, pkg, fn):
         ctx.unrec("R4", "KROME window parser", (KROME, fn.lineno), "the tmin/tmax branches were restructured beyond what the rule understands")
         return
     lowered = ".lower()" in src or ".casefold()" in src
-    uppered = ".upper()" in src and "search(value.upper()" in src.replace(" ", "")
+    uppered = ".upper()" in src and re.search(r"search\(\w+\.upper\(\)", src.replace(" ", "")) is not None
     for pat, line, flags in used:
         prof = number_regex_profile(pat)
         if prof is None or not prof["has_digits"]:
@@ -363,8 +363,14 @@ def _r4(ctx):
     want_ops = {"<", ">", ".LE.", ".GE.", ".LT.", ".GT."}
     want_none = {"N", "NONE", "N/A", "NO", ""}
     found = 0
+    # the loop variables by role: `for <key>, <value> in zip(<format keywords>, <fields>)`
+    keyname, valname = "key", "value"
     for node in ast.walk(fn):
-        if isinstance(node, ast.If) and isinstance(node.test, ast.Compare) and ast.unparse(node.test.left) == "key" and \
+        if isinstance(node, ast.For) and isinstance(node.iter, ast.Call) and ast.unparse(node.iter.func) == "zip" and isinstance(node.target, ast.Tuple) \
+                and len(node.target.elts) == 2 and all(isinstance(e, ast.Name) for e in node.target.elts):
+            keyname, valname = node.target.elts[0].id, node.target.elts[1].id
+    for node in ast.walk(fn):
+        if isinstance(node, ast.If) and isinstance(node.test, ast.Compare) and ast.unparse(node.test.left) == keyname and \
                 isinstance(node.test.comparators[0], ast.Constant) and node.test.comparators[0].value in ("tmin", "tmax"):
             which = node.test.comparators[0].value
             found += 1
@@ -381,7 +387,7 @@ def _r4(ctx):
                       "N / NONE / N/A / NO / empty keep the default (unbounded)", expected=str(sorted(want_none)), found=str(sorted(nones)))
             ctx.check(want_ops <= ops, "R4", f"KROME:{which}:operator tokens", (KROME, node.lineno),
                       "every comparison token of the KROME syntax is stripped before float()", expected=str(sorted(want_ops)), found=str(sorted(ops)))
-            ctx.check("value.replace('d', 'e')" in src, "R4", f"KROME:{which}:d-exponent", (KROME, node.lineno), "Fortran d-exponents are converted before float()")
+            ctx.check(f"{valname}.replace('d', 'e')" in src, "R4", f"KROME:{which}:d-exponent", (KROME, node.lineno), "Fortran d-exponents are converted before float()")
             attr = "temp_min" if which == "tmin" else "temp_max"
             tgt = [ast.unparse(t) for x in ast.walk(body) if isinstance(x, ast.Assign) for t in x.targets if isinstance(t, ast.Attribute)]
             ctx.check(tgt == [f"self.{attr}"], "R4", f"KROME:{which}:target", (KROME, node.lineno), f"the {which} field feeds self.{attr} only", found=str(tgt))
@@ -403,12 +409,17 @@ def _r4(ctx):
     # UCLCHEM freeze window
     ufn = pkg.method("UCLCHEMReaction", "_parse_string")
     ctx.saw(UCL, "UCLCHEMReaction._parse_string")
-    ok = False
-    for node in ast.walk(ufn):
-        if isinstance(node, ast.If) and "UCLCHEM_FR" in ast.unparse(node.test) and "reaction_type" in ast.unparse(node.test):
-            src = " ".join(ast.unparse(s) for s in node.body)
-            later = [x for x in ast.walk(ufn) if isinstance(x, ast.Assign) and ast.unparse(x.targets[0]) in ("self.temp_min", "self.temp_max") and x.lineno > node.lineno]
-            ok = src.replace(" ", "") in ("lt,ut=(0,30)", "lt,ut=0,30") and {ast.unparse(x.value) for x in later} == {"float(lt)", "float(ut)"}
+    from ..valueflow import Flow
+    ufl = Flow(ufn, UCL)
+    got = {}
+    for f in ufl.facts:
+        if f.kind == "attrstore" and f.target in ("temp_min", "temp_max"):
+            v = simp(f.value)
+            if v[0] == "call" and v[1] == ("global", "float") and len(v[2]) == 1 and v[2][0][0] == "phi":
+                c, a, b = v[2][0][1:4]
+                if c[0] == "cmp" and c[1] == ("Eq",) and show(c[2][0]).endswith("reaction_type") and show(c[2][1]).endswith("UCLCHEM_FR") and a[0] == "const" and b[0] == "item":
+                    got[f.target] = a[1]
+    ok = got == {"temp_min": 0, "temp_max": 30}
     ctx.check(ok, "R4", "UCLCHEM:FREEZE window", (UCL, ufn.lineno), "freeze-out reactions get the window (0, 30) before the bounds are stored")
 
 
